@@ -8,6 +8,7 @@ import os
 import sys
 
 from .ir import AnalysisError
+from . import alpha
 
 
 class ClassInfo:
@@ -108,6 +109,7 @@ class RepoIndex:
         self.repo = repo
         self.modules = {}
         self.parse_errors = []
+        self.alpha_renames = []     # [(relpath, function, {local name in the tree: reference name})]
         self.files_consulted = set()
         self.n_units = self.n_classes = self.n_funcs = 0
         for pkg in packages:
@@ -147,6 +149,10 @@ class RepoIndex:
                 except (SyntaxError, UnicodeDecodeError, OSError) as ex:
                     self.parse_errors.append((path, str(ex)))
                     continue
+                if count:
+                    # local names renamed w.r.t. the reference tree are renamed back (alpha-conversion, see sa/alpha.py)
+                    for qual, ren in alpha.normalise_module(tree, rel):
+                        self.alpha_renames.append((rel, qual, ren))
                 mi = ModInfo(name, path, rel, tree, src, is_pkg)
                 self.modules[name] = mi
                 if count:
